@@ -12,6 +12,7 @@ import (
 	"os"
 	"sort"
 	"strings"
+	"time"
 
 	"golang.org/x/tools/go/ssa"
 
@@ -364,6 +365,29 @@ func init() {
 			return notHandled{}
 		}
 		return decodeASCII(fr, s[0])
+	}
+
+	// civil.Date.IsValid: natively for concrete dates, Gregorian calendar formula for symbolic ones
+	intrinsics["(cloud.google.com/go/civil.Date).IsValid"] = func(fr *frame, args []value) value {
+		i := fr.i
+		st := args[0].(structure)
+		if !hasSymInside(st) {
+			y, m, d := st[0].(int), int(asInt64(st[1])), st[2].(int)
+			t := time.Date(y, time.Month(m), d, 0, 0, 0, 0, time.UTC)
+			return t.Year() == y && int(t.Month()) == m && t.Day() == d
+		}
+		c := i.run.ctx
+		y, m, d := i.term(st[0]), i.term(st[1]), i.term(st[2])
+		_, r4 := i.euclid(y, c.Int64(4))
+		_, r100 := i.euclid(y, c.Int64(100))
+		_, r400 := i.euclid(y, c.Int64(400))
+		zero := c.Int64(0)
+		leap := c.And(c.Eq(r4, zero), c.Or(c.Not(c.Eq(r100, zero)), c.Eq(r400, zero)))
+		is := func(k int64) *smt.Term { return c.Eq(m, c.Int64(k)) }
+		dim := c.Ite(is(2), c.Ite(leap, c.Int64(29), c.Int64(28)),
+			c.Ite(c.Or(is(4), is(6), is(9), is(11)), c.Int64(30), c.Int64(31)))
+		ok := c.And(c.Le(c.Int64(1), m), c.Le(m, c.Int64(12)), c.Le(c.Int64(1), d), c.Le(d, dim), c.Ge(y, zero))
+		return i.mkval(ok, types.Bool)
 	}
 
 	// errors / fmt: opaque error objects
